@@ -383,12 +383,11 @@ Section Recon.
     - inversion H; subst. apply N.eqb_refl.
   Qed.
 
-  Definition field_scope (stack : list N) (ctx : option N) (frozen : bool) (f : dfield) : bool :=
-    (if frozen then opt_N_eqb (fmark f) ctx else scope_field_ok descs stack (fmark f)) &&
-    scope_ok descs (push_mark (fmark f) stack) (fmark f) frozen (fvalue f).
+  Definition field_scope (stack : list N) (f : dfield) : bool :=
+    scope_field_ok descs stack (fmark f) && scope_ok descs (push_mark (fmark f) stack) (fvalue f).
 
-  Lemma scope_ok_obj : forall stack ctx frozen p nl ty poss fields,
-    scope_ok descs stack ctx frozen (DObj p nl ty poss fields) = forallb (field_scope stack ctx frozen) fields.
+  Lemma scope_ok_obj : forall stack p nl ty poss fields,
+    scope_ok descs stack (DObj p nl ty poss fields) = forallb (field_scope stack) fields.
   Proof.
     intros. simpl. induction fields as [| [nm on pon df v] r IH]; [reflexivity |].
     simpl. unfold field_scope at 1. simpl. rewrite IH. reflexivity.
@@ -404,38 +403,34 @@ Section Recon.
 
   Hypothesis Hfind : parent_of descs did = dd_parent d.
 
-  Definition other_ctx (stack : list N) (ctx : option N) (frozen : bool) : Prop :=
-    ctx <> Some did /\
-    (frozen = true \/ exists e, In e stack /\ e <> did /\ is_ancestor descs e (dd_parent d) = false).
+  (* some enclosing field carries a mark that is neither d nor an ancestor of d *)
+  Definition other_ctx (stack : list N) : Prop :=
+    exists e, In e stack /\ e <> did /\ is_ancestor descs e (dd_parent d) = false.
 
-  Lemma scope_no_mark : forall n stack ctx frozen,
-    scope_ok descs stack ctx frozen n = true -> other_ctx stack ctx frozen -> no_mark n = true.
+  Lemma scope_no_mark : forall n stack,
+    scope_ok descs stack n = true -> other_ctx stack -> no_mark n = true.
   Proof.
-    induction n using dnode_ind'; intros stack ctx frozen Hs Ho.
+    induction n using dnode_ind'; intros stack Hs Ho.
     - reflexivity.
-    - simpl in *. eapply IHn; [exact Hs |].
-      destruct Ho as [Hc Hw]. split; [exact Hc |].
-      destruct Hw as [-> | Hw]; [left; reflexivity |].
-      destruct (match n with DArr _ _ _ => true | _ => false end); [left; apply orb_true_r | right; exact Hw].
+    - simpl in *. eapply IHn; eauto.
     - rewrite scope_ok_obj in Hs. rewrite no_mark_obj_eq.
       rewrite forallb_forall in *. intros f Hf.
       specialize (Hs f Hf). unfold field_scope in Hs. apply andb_true_iff in Hs. destruct Hs as [Hs1 Hs2].
-      destruct Ho as [Hc Hw].
+      destruct Ho as [e [He1 [He2 He3]]].
       assert (Hm : fmark f <> Some did).
-      { destruct Hw as [-> | [e [He1 [He2 He3]]]].
-        - apply opt_N_eqb_eq in Hs1. congruence.
-        - destruct frozen.
-          + apply opt_N_eqb_eq in Hs1. congruence.
-          + intros Hm. rewrite Hm in Hs1. simpl in Hs1. apply andb_true_iff in Hs1. destruct Hs1 as [_ Hs1].
-            rewrite forallb_forall in Hs1. specialize (Hs1 e He1).
-            rewrite Hfind, He3, orb_false_r in Hs1. apply N.eqb_eq in Hs1. congruence. }
+      { intros Hm. rewrite Hm in Hs1. simpl in Hs1. apply andb_true_iff in Hs1. destruct Hs1 as [_ Hs1].
+        rewrite forallb_forall in Hs1. specialize (Hs1 e He1).
+        rewrite Hfind, He3, orb_false_r in Hs1. apply N.eqb_eq in Hs1. congruence. }
       apply andb_true_iff. split.
       + apply negb_true_iff. destruct (opt_N_eqb (fmark f) (Some did)) eqn:E; auto.
         apply opt_N_eqb_eq in E. contradiction.
       + rewrite Forall_forall in H. eapply (H f Hf); [exact Hs2 |].
-        split; [exact Hm |].
-        destruct Hw as [-> | [e [He1 [He2 He3]]]]; [left; reflexivity |].
-        right. exists e. split; [| auto]. destruct (fmark f); simpl; auto.
+        exists e. split; [| auto]. destruct (fmark f); simpl; auto.
+  Qed.
+
+  Lemma no_seek_no_mark : forall v, allows_seek v = false -> no_mark v = true.
+  Proof.
+    induction v using dnode_ind'; simpl; intros Ha; auto. discriminate.
   Qed.
 
   Lemma members_cong : forall sel sel' val val' fs,
@@ -455,9 +450,6 @@ Section Recon.
   Hypothesis HX2 : forall c, is_ancestor descs c (dd_parent d) = true -> In c X.
   Hypothesis HX3 : forall c, In c X -> is_ancestor descs did (parent_of descs c) = false.
 
-  Definition inside_ctx (stack : list N) (ctx : option N) : Prop :=
-    In did stack /\ exists c, ctx = Some c /\ (c = did \/ is_ancestor descs did (parent_of descs c) = true).
-
   Lemma keep_inside : forall c, (c = did \/ is_ancestor descs did (parent_of descs c) = true) ->
     keepX (did :: X) (Some c) = keep_layer (Some did) (Some c).
   Proof.
@@ -467,11 +459,11 @@ Section Recon.
     fold (mem_N c X). apply mem_N_false. intros Hin. rewrite (HX3 c Hin) in Ha. discriminate.
   Qed.
 
-  Lemma scope_inside : forall n stack ctx frozen parent tns,
-    scope_ok descs stack ctx frozen n = true -> inside_ctx stack ctx ->
+  Lemma scope_inside : forall n stack parent tns,
+    scope_ok descs stack n = true -> In did stack ->
     proj (keepX (did :: X)) n parent tns = proj (keep_layer (Some did)) n parent tns.
   Proof.
-    induction n using dnode_ind'; intros stack ctx frozen parent tns Hs Hi.
+    induction n using dnode_ind'; intros stack parent tns Hs Hin.
     - reflexivity.
     - simpl in *. destruct (get_path p parent) as [[| | | |items |] |]; auto.
       f_equal. apply map_ext. intros it. eapply IHn; eauto.
@@ -481,19 +473,16 @@ Section Recon.
       rewrite scope_ok_obj in Hs. rewrite forallb_forall in Hs. rewrite Forall_forall in H.
       apply members_cong. intros f Hf.
       specialize (Hs f Hf). unfold field_scope in Hs. apply andb_true_iff in Hs. destruct Hs as [Hs1 Hs2].
-      destruct Hi as [Hin [c [Hc1 Hc2]]].
       assert (Hm : exists c0, fmark f = Some c0 /\ (c0 = did \/ is_ancestor descs did (parent_of descs c0) = true)).
-      { destruct frozen.
-        - apply opt_N_eqb_eq in Hs1. exists c. rewrite Hs1. auto.
-        - destruct (fmark f) as [c0 |] eqn:Em.
-          + exists c0. split; [reflexivity |]. simpl in Hs1. apply andb_true_iff in Hs1. destruct Hs1 as [_ Hs1].
-            rewrite forallb_forall in Hs1. specialize (Hs1 did Hin). apply orb_true_iff in Hs1.
-            destruct Hs1 as [He | Ha]; [left; apply N.eqb_eq; exact He | right; exact Ha].
-          + simpl in Hs1. destruct stack; [contradiction | discriminate]. }
+      { destruct (fmark f) as [c0 |] eqn:Em.
+        - exists c0. split; [reflexivity |]. simpl in Hs1. apply andb_true_iff in Hs1. destruct Hs1 as [_ Hs1].
+          rewrite forallb_forall in Hs1. specialize (Hs1 did Hin). apply orb_true_iff in Hs1.
+          destruct Hs1 as [He | Ha]; [left; apply N.eqb_eq; exact He | right; exact Ha].
+        - simpl in Hs1. destruct stack; [contradiction | discriminate]. }
       destruct Hm as [c0 [Hm1 Hm2]].
       unfold sel_keep. rewrite Hm1. rewrite (keep_inside c0 Hm2). split; [reflexivity |].
       intros _. eapply (H f Hf); [exact Hs2 |].
-      rewrite Hm1. split; [simpl; right; exact Hin | exists c0; auto].
+      rewrite Hm1. simpl. right. exact Hin.
   Qed.
 
   (* ---- lists of members ---- *)
@@ -683,46 +672,25 @@ Section Recon.
     destruct (c =? did); simpl; [rewrite orb_true_r | rewrite orb_false_r]; reflexivity.
   Qed.
 
-  Lemma no_seek_no_mark : forall v stack df,
-    scope_ok descs (push_mark df stack) df false v = true -> allows_seek v = false -> df <> Some did ->
-    no_mark v = true.
-  Proof.
-    intros v stack df Hs Ha Hd. destruct v as [p nl ty poss fs | p nl item | l]; try discriminate; [| reflexivity].
-    simpl. destruct item as [? ? ? ? ? | ip inl iitem | ?]; try discriminate; [| reflexivity].
-    simpl in Hs. simpl.
-    eapply scope_no_mark; [exact Hs |]. split; [exact Hd | left; reflexivity].
-  Qed.
-
   (* ---- the layer of d merged into a response that holds the layers X ---- *)
-  Lemma seek_merge : forall n stack ctx parent tns,
-    scope_ok descs stack ctx false n = true -> names_ok n = true ->
-    (forall e, In e stack -> is_ancestor descs e (dd_parent d) = true) -> ctx <> Some did ->
+  Lemma seek_merge : forall n stack parent tns,
+    scope_ok descs stack n = true -> names_ok n = true ->
+    (forall e, In e stack -> is_ancestor descs e (dd_parent d) = true) ->
     exists v, apply_rel (r_items descs d n parent tns) (Some (proj (keepX X) n parent tns)) = Some v /\
               jeq v (proj (keepX (did :: X)) n parent tns).
   Proof.
-    induction n using dnode_ind'; intros stack ctx parent tns Hs Hn Hst Hctx.
+    induction n using dnode_ind'; intros stack parent tns Hs Hn Hst.
     - exists (proj (keepX X) (DLeaf l) parent tns). split; [reflexivity | apply jeq_refl].
-    - (* list *)
+    - (* list, of objects or of lists *)
       destruct (get_path p parent) as [[| | | |items |] |] eqn:Hg;
         try (exists JNull; simpl; rewrite Hg; split; [reflexivity | constructor]).
-      destruct n as [ip inl ity iposs ifs | ip inl iitem | il].
-      + (* list of objects *)
-        rewrite (r_items_arr _ _ _ _ _ _ Hg). simpl proj. rewrite Hg.
-        simpl in Hs. simpl in Hn. apply andb_true_iff in Hn. destruct Hn as [_ Hn].
-        destruct (arr_merge (DObj ip inl ity iposs ifs) tns
-                            (fun it => proj (keepX X) (DObj ip inl ity iposs ifs) it tns)
-                            (fun it => proj (keepX (did :: X)) (DObj ip inl ity iposs ifs) it tns)
-                            (fun it => IHn stack ctx it tns Hs Hn Hst Hctx) items [] 0 eq_refl) as [vs [V1 V2]].
-        simpl in V1. exists (JArr vs). split; [exact V1 | constructor; exact V2].
-      + (* list of lists: nothing of d inside *)
-        assert (Hnm : no_mark (DArr p nl (DArr ip inl iitem)) = true).
-        { simpl. simpl in Hs.
-          eapply scope_no_mark; [exact Hs |]. split; [exact Hctx | left; reflexivity]. }
-        destruct (no_mark_clean X _ parent tns Hnm) as [N1 N2].
-        rewrite N1, N2. eexists. split; [reflexivity | apply jeq_refl].
-      + (* list of leaves *)
-        destruct (no_mark_clean X (DArr p nl (DLeaf il)) parent tns eq_refl) as [N1 N2].
-        rewrite N1, N2. eexists. split; [reflexivity | apply jeq_refl].
+      rewrite (r_items_arr _ _ _ _ _ _ Hg). simpl proj. rewrite Hg.
+      simpl in Hs. simpl in Hn. apply andb_true_iff in Hn. destruct Hn as [_ Hn].
+      destruct (arr_merge n tns
+                          (fun it => proj (keepX X) n it tns)
+                          (fun it => proj (keepX (did :: X)) n it tns)
+                          (fun it => IHn stack it tns Hs Hn Hst) items [] 0 eq_refl) as [vs [V1 V2]].
+      simpl in V1. exists (JArr vs). split; [exact V1 | constructor; exact V2].
     - (* object *)
       destruct (get_path p parent) as [[| | | | |m] |] eqn:Hg;
         try (exists JNull; simpl; rewrite Hg; split; [reflexivity | constructor]).
@@ -754,19 +722,19 @@ Section Recon.
         - rewrite Hc. split.
           + simpl. apply mem_N_false. exact HX1.
           + unfold valL, valXd. symmetry. eapply scope_inside; [exact Hs2 |].
-            rewrite Hc. simpl. split; [left; reflexivity | exists did; auto].
+            rewrite Hc. simpl. left. reflexivity.
         - destruct Hc as [Ha [Hd Hm]]. split; [| split].
           + destruct Hm as [-> | [c [-> Hc]]]; [reflexivity |]. simpl. apply mem_N_In. apply HX2. exact Hc.
           + apply child_named_names; assumption.
-          + unfold valX, valXd. eapply (H f Hf); [exact Hs2 | exact Hn2 | | exact Hd].
+          + unfold valX, valXd. eapply (H f Hf); [exact Hs2 | exact Hn2 |].
             intros e He. destruct Hm as [Hm | [c [Hm Hc]]]; rewrite Hm in He; simpl in He.
             * apply Hst. exact He.
             * destruct He as [<- | He]; [exact Hc | apply Hst; exact He].
         - destruct Hc as [Hd Hm]. unfold valX, valXd.
           assert (Hnm : no_mark (fvalue f) = true).
           { destruct Hm as [Ha | [c [Hm Hc]]].
-            - eapply no_seek_no_mark; eauto.
-            - eapply scope_no_mark; [exact Hs2 |]. split; [exact Hd |]. right.
+            - apply no_seek_no_mark. exact Ha.
+            - eapply scope_no_mark; [exact Hs2 |].
               exists c. rewrite Hm. simpl. split; [left; reflexivity |]. split; [congruence | exact Hc]. }
           symmetry. apply (no_mark_clean X _ value tns' Hnm). }
       (* the item of this object, then the pass-through fields *)
